@@ -38,6 +38,14 @@ pub fn plan_for(property: &str, seed: u64, run: u64, miri: bool) -> HistPlan {
             knobs.max_clients = 1;
             knobs.max_text = 8;
         }
+        if run % 30_000 == 29_998 {
+            // mega runs: a short history that starts with a sentence beyond 2^20 bytes
+            knobs.mega = true;
+            knobs.max_ops = 10;
+            knobs.min_ops = 5;
+            knobs.max_clients = 1;
+            knobs.max_text = 12;
+        }
         if run % 50_000 == 49_999 {
             // enough *successful* updates on one object to pass 2^16 (update-heavy mix)
             knobs.max_ops = 200_000;
